@@ -30,6 +30,26 @@ TITLES = {
     "C12-r2": "`dw [n]` computes its size as a 16-bit `2*n`: aborts (debug) or wraps the data counter for n >= 32768",
     "C18-r2": "the read helper treats end of input (Ok(0)) like a failed read: AL / the count byte keep stale values",
     "C20-r2": "a blank line at the prompt is treated like end of input and quits the emulator",
+    "C01-r3": "interpreter form `<op> word label, imm` reads its immediate as s_byte_num: immediates above 255 are not accepted there",
+    "C02-r3": "word-memory shift by CL takes the count from all of CX",
+    "C03-r3": "`div/idiv word [mem]` swallows the divide error (`if f(..).is_ok()`): no INT 0",
+    "C04-r3": "segment-overridden displaced offsets are added in usize: no wrap at 16 bits",
+    "C05-r3": "SAHF keeps only bits 12..15 of FLAGS: TF/IF/DF/OF are cleared",
+    "C06-r3": "LOOP decrements CX with word_sub: the arithmetic flags are rewritten",
+    "C07-r3": "REP counts in i16 (`cx as i16 - 1 < 0`): CX >= 8001h repeats zero times, CX = 8000h aborts",
+    "C08-r3": "no guard hlt is appended when the program already ends in hlt: a label after it indexes past the end",
+    "C09-r3": "POP to memory reads the high byte at base+1 without the 1 MB wrap",
+    "C10-r3": "`print mem :n` returns Err for DS*16+n >= 1 MB: a run-time condition reaches the internal-error path",
+    "C11-r3": "negative decimals parse the magnitude and negate: -32768 / -128 are rejected",
+    "C12-r3": "loader `db [n]` / `db [v,n]` fill a slice clipped at 1 MB instead of wrapping",
+    "C13-r3": "number macro arguments go through s_word_num (i16): 8000h..FFFFh are substituted as negative numbers",
+    "C14-r3": "s_byte_num parses its negative literal as i16 and casts: -129..-32768 are accepted",
+    "C15-r3": "preprocess echoes at most 80 bytes of the offending line: the cut can fall inside a UTF-8 sequence",
+    "C16-r3": "LexerHelper remembers the last line in a Cell: a lookup for an earlier position answers with the remembered line",
+    "C17-r3": "`print mem a -> b` breaks rows by address instead of by count",
+    "C18-r3": "AH=0Ah compares `input.len() as u8` with the capacity: lines of 256 bytes or more wrap",
+    "C19-r3": "VM::default() builds an all-zero machine; new() starts from it",
+    "C20-r3": "stepping condition tests `out.code[idx] != \"hlt\"`: a hlt written by the user gets no prompt",
 }
 rows = []
 for sid in sorted(os.listdir(ROOT)):
